@@ -124,9 +124,9 @@ Proof.
 Qed.
 
 (** hence the update event of such a traveller follows the discipline *)
-Corollary bot_shape_update_conforms clk (t : traveller) (p : params N) share now :
+Corollary bot_shape_update_conforms mx clk (t : traveller) (p : params N) share now :
   clk <= now -> 0 <= now -> now mod SecondsInDay = 0 -> length (entries (t_hist t)) = MaxFlights ->
-  bot_shape (th_params p) now (t_hist t) -> conforms clk t (EUpdate p share now).
+  bot_shape (th_params p) now (t_hist t) -> conforms mx clk t (EUpdate p share now).
 Proof.
   intros Hclk Hn0 Hnow Hlen Hs. split; [exact Hclk|]. exact (bot_shape_update t p now Hn0 Hnow Hlen Hs).
 Qed.
